@@ -27,10 +27,11 @@ type Shape struct {
 	Freshest   bool     // certificate carries a freshest-CRL extension
 	LongSerial bool     // 151-octet serial: forces the OCSP POST encoding
 	NoCRLSign  bool     // (CAs) key usage certSign only
+	NoEKU      bool     // (leaf) no extended-key-usage extension at all
 }
 
 func (s Shape) key() string {
-	return fmt.Sprintf("%s|%s|%v|%v|%v", strings.Join(s.OCSP, ","), strings.Join(s.CRL, ","), s.Freshest, s.LongSerial, s.NoCRLSign)
+	return fmt.Sprintf("%s|%s|%v|%v|%v|%v", strings.Join(s.OCSP, ","), strings.Join(s.CRL, ","), s.Freshest, s.LongSerial, s.NoCRLSign, s.NoEKU)
 }
 
 // HTTPShape returns a shape with nO http responders and nC http points.
@@ -133,6 +134,9 @@ func (f *Family) spec(pos int, s Shape) *pki.Cert {
 			c.KU = x509.KeyUsageCertSign
 		}
 	}
+	if s.NoEKU && pos == 0 && f.Purpose != "timestamping" {
+		c.EKU = nil
+	}
 	for j, k := range s.OCSP {
 		c.OCSP = append(c.OCSP, f.URL(pos, "o", j, k))
 	}
@@ -196,8 +200,8 @@ func (f *Family) Chain(shapes []Shape) []*x509.Certificate {
 // auxCerts are the look-alike signers used by forged OCSP replies for the
 // certificate at one position (all relative to its issuer at pos+1).
 type auxCerts struct {
-	delegate, sibling, brokenDelegate, unrelatedSelf, sameNameCA, sameNameDelegate *x509.Certificate
-	delegateKey, siblingKey, unrelatedKey, sameNameCAKey, sameNameDelegateKey      *pki.Key
+	delegate, sibling, siblingNoEKU, siblingAnyEKU, brokenDelegate, unrelatedSelf, sameNameCA, sameNameDelegate *x509.Certificate
+	delegateKey, siblingKey, unrelatedKey, sameNameCAKey, sameNameDelegateKey                                   *pki.Key
 }
 
 func (f *Family) auxFor(pos int) *auxCerts {
@@ -223,6 +227,12 @@ func (f *Family) auxFor(pos int) *auxCerts {
 	a.delegate = mk(d, issuer, ik)
 	a.siblingKey = pki.K("p256", 8)
 	a.sibling = mk(pki.LeafSpec(a.siblingKey, f.Tag+"-sibling"), issuer, ik)
+	sn := pki.LeafSpec(a.siblingKey, f.Tag+"-sibling-noeku")
+	sn.EKU = nil
+	a.siblingNoEKU = mk(sn, issuer, ik)
+	sa := pki.LeafSpec(a.siblingKey, f.Tag+"-sibling-anyeku")
+	sa.EKU = []x509.ExtKeyUsage{x509.ExtKeyUsageAny}
+	a.siblingAnyEKU = mk(sa, issuer, ik)
 	// a delegate certificate whose own signature is not the issuer's
 	bd := pki.LeafSpec(a.delegateKey, f.Tag+"-ocsp-delegate")
 	bd.EKU = []x509.ExtKeyUsage{x509.ExtKeyUsageOCSPSigning}
